@@ -130,7 +130,7 @@ def match_uint(s: str, pos: int) -> int:
         if c.isdigit():
             p += 1
         elif c == '_':
-            if p + 1 < len(s) and s[p + 1].isdigit():
+            if p > pos and p + 1 < len(s) and s[p + 1].isdigit():
                 p += 1
             else:
                 return -1
@@ -164,7 +164,7 @@ def match_float(s: str, pos: int) -> int:
 
     if p < len(s) and s[p] == '.':
         p += 1
-        if (q := match_int(s, p)) > 0:
+        if (q := match_uint(s, p)) > 0:
             p = q
 
     if p < len(s) and s[p].lower() == 'e':
